@@ -21,6 +21,7 @@ type obs struct {
 	catchAll bool   // the condition was manufactured by slip's catch-all from a non-Lisp Go panic
 	rawType  string // %T of a raw (non-condition) panic value
 	site     string // Go function in which the original panic was raised (faults only)
+	anyClass bool   // the function called is documented to raise arbitrary objects
 }
 
 // faultRule maps a message fragment of a Go runtime fault to a fault class.
@@ -69,6 +70,10 @@ func (c *classifier) faultOfMessage(msg string) string {
 
 // classify returns "" when the observation is acceptable (a value, a partial
 // read, or a genuine Lisp condition), else the fault class.
+// throwsAnything: functions DOCUMENTED to raise whatever object they are given
+// (so the class of what arrives is the caller's choice, not a fault).
+var throwsAnything = map[string]bool{"gi:panic": true}
+
 func (c *classifier) classify(o *obs) string {
 	switch o.kind {
 	case "value", "partial":
@@ -87,7 +92,7 @@ func (c *classifier) classify(o *obs) string {
 				return fc
 			}
 		}
-		if c.checkHierarchy {
+		if c.checkHierarchy && !o.anyClass {
 			ok := false
 			for _, h := range o.hier {
 				if h == "condition" {
